@@ -40,6 +40,14 @@ def write_histories(path, histories, sizes=None):
                         cj = pending.pop(e["c"], None)
                         if cj is not None:
                             recs[cj]["ri"] = base + j + 1
+            # an automatic removal is reported from inside the table computation and becomes visible when that computation
+            # ends: bi = line of the next record logged by the same goroutine (or the closing reset), by which it has ended
+            for j, e in enumerate(recs):
+                e.setdefault("bi", 0)
+                e.setdefault("g", 0)
+                if e["t"] == "auto":
+                    nxt = next((x for x in range(j + 1, len(recs)) if recs[x].get("g", 0) == e["g"] and e["g"] != 0), None)
+                    e["bi"] = base + (nxt + 1 if nxt is not None else len(recs) + 1)
             for e in recs:
                 f.write(json.dumps(e) + "\n")
             r = dict(RESET)
